@@ -214,4 +214,228 @@ theorem ScanSpec.unique {T : LexTables} {src : List Nat} {p off off' e e' : Nat}
         · exact absurd h h2'
       · subst h3 h3' h4 h4'; exact ⟨rfl, rfl, rfl⟩
 
+/-! ### the loop of `Scan` meets the specification -/
+
+/-- Invariant of `for state != -1` while the automaton is live (`p0` = cursor offset at entry of
+    `Scan`): `[p0, start)` is skipped text, the automaton has run from state 0 at `start` to
+    `state` at `pos`, and `(typ, end_)` is the action of the last state entered (or nothing has
+    been read since the (re)start). -/
+structure SLive (T : LexTables) (src : List Nat) (p0 : Nat) (L : Loop) : Prop where
+  sk : Skipped T src p0 L.start
+  run : Run T src 0 L.start L.state.toNat L.pos
+  le : L.pos ≤ src.length
+  alt : (L.end_ = L.pos ∧ L.start < L.pos ∧ L.typ = T.accept L.state.toNat) ∨
+        (L.pos = L.start ∧ L.end_ ≤ L.start ∧ (L.pos < src.length → L.typ = tokINVALID) ∧
+          (src.length ≤ L.pos → L.typ = tokEOF))
+
+/-- when the loop has ended, what `Scan` is about to return meets the specification -/
+def SDone (T : LexTables) (src : List Nat) (p0 : Nat) (L : Loop) : Prop :=
+  ScanSpec T src p0 L.typ L.start (if L.end_ > L.start then L.end_ else L.pos)
+
+def SGood (T : LexTables) (src : List Nat) (p0 : Nat) (L : Loop) : Prop :=
+  if L.state = -1 then SDone T src p0 L else SLive T src p0 L
+
+theorem iter_sgood {T : LexTables} (hT : TWF T) {src : List Nat} {p0 : Nat} {L : Loop}
+    (h : SLive T src p0 L) : SGood T src p0 (iter T src L) := by
+  obtain ⟨sk, run, le, alt⟩ := h
+  have sle : L.start ≤ L.pos := run.le
+  by_cases hlt : L.pos < src.length
+  · have hne := drop_ne_nil hlt
+    have hw := decodeRune_size_pos _ hne
+    have hw2 := decodeRune_size_le _ hne
+    simp only [List.length_drop] at hw2
+    have hst := stepAt_lt T L.state.toNat hlt
+    rw [iter_lt T src L hlt]
+    dsimp only
+    split
+    · -- live transition
+      rename_i hnext
+      rw [if_neg hnext] at hst
+      split
+      · -- into a state with an action
+        rename_i hacc
+        unfold SGood; rw [if_neg hnext]
+        exact ⟨sk, Run.step run hst hacc, by dsimp only; omega,
+          Or.inl ⟨rfl, by dsimp only; omega, rfl⟩⟩
+      · -- into an ignore state: restart
+        rename_i hacc
+        have hacc' : T.accept (T.trans L.state.toNat (decodeRune (src.drop L.pos)).1).toNat = -1 := by
+          simpa using hacc
+        rw [if_pos (hT _ hacc')]
+        unfold SGood; rw [if_neg (by dsimp only; decide)]
+        refine ⟨Skipped.snoc sk ⟨_, _, _, run, hst, hacc'⟩, Run.refl _ _, by dsimp only; omega,
+          Or.inr ⟨rfl, ?_, ?_, ?_⟩⟩
+        · dsimp only; omega
+        · dsimp only; intro hp; rw [if_neg (by omega)]
+        · dsimp only; intro hp; rw [if_pos (by omega)]
+    · -- no transition: the loop ends
+      rename_i hnext
+      have hnext' : T.trans L.state.toNat (decodeRune (src.drop L.pos)).1 = -1 := by
+        simpa using hnext
+      rw [if_pos hnext'] at hst
+      split
+      · rename_i htyp
+        unfold SGood; rw [if_pos rfl]
+        unfold SDone ScanSpec; dsimp only
+        refine ⟨sk, Or.inr ⟨by omega, _, _, run, hst, Or.inr ⟨?_, htyp, ?_⟩⟩⟩
+        · rcases alt with ⟨_, _, ht⟩ | ⟨hp, _⟩
+          · exact Or.inr (ht ▸ htyp)
+          · exact Or.inl hp
+        · rw [if_pos (by omega), if_pos hlt]
+      · rename_i htyp
+        unfold SGood; rw [if_pos rfl]
+        unfold SDone ScanSpec; dsimp only
+        rcases alt with ⟨he, hsp, ht⟩ | ⟨_, _, hty, _⟩
+        · refine ⟨sk, Or.inr ⟨by omega, _, _, run, hst, Or.inl ⟨hsp, ht ▸ htyp, ht, ?_⟩⟩⟩
+          rw [if_pos (by omega)]; exact he
+        · exact absurd (hty hlt) htyp
+  · have hle : src.length ≤ L.pos := by omega
+    have hst := stepAt_ge T L.state.toNat hle
+    rw [iter_eof T src L hle]
+    split
+    · rename_i htyp
+      unfold SGood; rw [if_pos rfl]
+      unfold SDone ScanSpec; dsimp only
+      rcases alt with ⟨he, hsp, ht⟩ | ⟨_, _, _, hty⟩
+      · refine ⟨sk, Or.inr ⟨by omega, _, _, run, hst, Or.inr ⟨Or.inr (ht ▸ htyp), htyp, ?_⟩⟩⟩
+        rw [if_pos hsp, if_neg hlt]
+      · have := hty hle; rw [htyp] at this; exact absurd this (by decide)
+    · rename_i htyp
+      unfold SGood; rw [if_pos rfl]
+      unfold SDone ScanSpec; dsimp only
+      rcases alt with ⟨he, hsp, ht⟩ | ⟨hp, hes, _, hty⟩
+      · refine ⟨sk, Or.inr ⟨by omega, _, _, run, hst, Or.inl ⟨hsp, ht ▸ htyp, ht, ?_⟩⟩⟩
+        rw [if_pos (by omega)]; exact he
+      · refine ⟨sk, Or.inl ⟨by omega, hty hle, ?_⟩⟩
+        rw [if_neg (by omega)]; exact hp
+
+theorem loop_sdone {T : LexTables} (hT : TWF T) {src : List Nat} {p0 : Nat} (L : Loop)
+    (h : SGood T src p0 L) : SDone T src p0 (loop T src L) := by
+  fun_induction loop T src L with
+  | case1 L hs => unfold SGood at h; rwa [if_pos hs] at h
+  | case2 L hs hlt ih =>
+    unfold SGood at h; rw [if_neg hs] at h
+    exact ih (iter_sgood hT h)
+  | case3 L hs hlt =>
+    unfold SGood at h; rw [if_neg hs] at h
+    have := iter_sgood (T := T) hT h
+    unfold SGood at this; rwa [if_pos (iter_state_eof T src L hlt)] at this
+
+theorem loop0_sgood (T : LexTables) {src : List Nat} {st : LexSt} (h : st.pos < src.length) :
+    SGood T src st.pos (loop0 st) := by
+  unfold SGood; rw [if_neg (by unfold loop0; dsimp only; decide)]
+  exact ⟨Skipped.nil _, Run.refl _ _, by unfold loop0; dsimp only; omega,
+    Or.inr ⟨rfl, Nat.zero_le _, fun _ => rfl, fun hp => by unfold loop0 at hp; dsimp only at hp; omega⟩⟩
+
+/-- every call of `Scan` meets `ScanSpec` -/
+theorem scan_meets_spec {T : LexTables} (hT : TWF T) (src : List Nat) (st : LexSt) :
+    ScanSpec T src st.pos (scan T src st).1.typ (scan T src st).1.offset (scan T src st).2.pos := by
+  by_cases hlt : st.pos < src.length
+  · have h := loop_sdone hT (loop0 st) (loop0_sgood T hlt)
+    unfold SDone at h
+    rw [scan_lt T src st hlt]
+    dsimp only
+    split
+    · rename_i hgt; rw [if_pos hgt] at h; exact h
+    · rename_i hgt; rw [if_neg hgt] at h; exact h
+  · rw [scan_eof T src st (by omega)]
+    exact ⟨Skipped.nil _, Or.inl ⟨by dsimp only; omega, rfl, rfl⟩⟩
+
+/-! ### bisimilar automata give the same `Scan` -/
+
+/-- the `state` variables of the two loops: both `-1`, or both live and related -/
+def StRel (R : Nat → Nat → Prop) (s1 s2 : Int) : Prop :=
+  (s1 = -1 ∧ s2 = -1) ∨ (s1 ≠ -1 ∧ s2 ≠ -1 ∧ R s1.toNat s2.toNat)
+
+/-- the loops agree on every variable except `state` -/
+def LRel (R : Nat → Nat → Prop) (L1 L2 : Loop) : Prop :=
+  ({ L1 with state := 0 } : Loop) = { L2 with state := 0 } ∧ StRel R L1.state L2.state
+
+theorem iter_rel {T1 T2 : LexTables} {R : Nat → Nat → Prop} (h : Bisim T1 T2 R) (src : List Nat)
+    {L1 L2 : Loop} (hr : LRel R L1 L2) (hs : L1.state ≠ -1) :
+    LRel R (iter T1 src L1) (iter T2 src L2) := by
+  obtain ⟨pos, line, col, start, sl, sc, e, typ, s1⟩ := L1
+  obtain ⟨pos2, line2, col2, start2, sl2, sc2, e2, typ2, s2⟩ := L2
+  obtain ⟨heq, hst⟩ := hr
+  simp only [Loop.mk.injEq, and_true] at heq
+  obtain ⟨rfl, rfl, rfl, rfl, rfl, rfl, rfl, rfl⟩ := heq
+  dsimp only at hs hst
+  rcases hst with ⟨h1, _⟩ | ⟨_, hs2, hR⟩
+  · exact absurd h1 hs
+  by_cases hlt : pos < src.length
+  · rw [iter_lt T1 src _ hlt, iter_lt T2 src _ hlt]
+    dsimp only
+    have hd := h.dead _ _ (decodeRune (src.drop pos)).1 hR
+    by_cases hn : T1.trans s1.toNat (decodeRune (src.drop pos)).1 = -1
+    · have hn2 := hd.1 hn
+      simp only [hn, hn2, ne_eq, not_true_eq_false, if_false]
+      split
+      · exact ⟨rfl, Or.inl ⟨rfl, rfl⟩⟩
+      · exact ⟨rfl, Or.inl ⟨rfl, rfl⟩⟩
+    · have hn2 : T2.trans s2.toNat (decodeRune (src.drop pos)).1 ≠ -1 := fun c => hn (hd.2 c)
+      have hl := h.live _ _ (decodeRune (src.drop pos)).1 hR hn
+      obtain ⟨ha, hi⟩ := h.act _ _ hl
+      simp only [hn, hn2, ne_eq, not_false_eq_true, if_true, ← ha, ← hi]
+      split
+      · exact ⟨rfl, Or.inr ⟨hn, hn2, hl⟩⟩
+      · split
+        · exact ⟨rfl, Or.inr ⟨by dsimp only; decide, by dsimp only; decide, h.start⟩⟩
+        · exact ⟨rfl, Or.inr ⟨hn, hn2, hl⟩⟩
+  · rw [iter_eof T1 src _ (by dsimp only; omega), iter_eof T2 src _ (by dsimp only; omega)]
+    dsimp only
+    split
+    · exact ⟨rfl, Or.inl ⟨rfl, rfl⟩⟩
+    · exact ⟨rfl, Or.inl ⟨rfl, rfl⟩⟩
+
+theorem LRel.pos_eq {R : Nat → Nat → Prop} {L1 L2 : Loop} (h : LRel R L1 L2) : L1.pos = L2.pos := by
+  have := congrArg Loop.pos h.1; exact this
+
+theorem loop_rel {T1 T2 : LexTables} {R : Nat → Nat → Prop} (h : Bisim T1 T2 R) (src : List Nat)
+    (L1 L2 : Loop) (hr : LRel R L1 L2) : LRel R (loop T1 src L1) (loop T2 src L2) := by
+  fun_induction loop T1 src L1 generalizing L2 with
+  | case1 L1 hs =>
+    have hs2 : L2.state = -1 := by
+      rcases hr.2 with ⟨_, h2⟩ | ⟨h1, _⟩
+      · exact h2
+      · exact absurd hs h1
+    rw [loop, if_pos hs2]; exact hr
+  | case2 L1 hs hlt ih =>
+    have hs2 : L2.state ≠ -1 := by
+      rcases hr.2 with ⟨h1, _⟩ | ⟨_, h2, _⟩
+      · exact absurd h1 hs
+      · exact h2
+    have hlt2 : L2.pos < src.length := hr.pos_eq ▸ hlt
+    rw [loop.eq_1 T2 src L2, if_neg hs2, dif_pos hlt2]
+    exact ih _ (iter_rel h src hr hs)
+  | case3 L1 hs hlt =>
+    have hs2 : L2.state ≠ -1 := by
+      rcases hr.2 with ⟨h1, _⟩ | ⟨_, h2, _⟩
+      · exact absurd h1 hs
+      · exact h2
+    have hlt2 : ¬ L2.pos < src.length := hr.pos_eq ▸ hlt
+    rw [loop.eq_1 T2 src L2, if_neg hs2, dif_neg hlt2]
+    exact iter_rel h src hr hs
+
+theorem bisim_scan_eq {T1 T2 : LexTables} {R : Nat → Nat → Prop} (h : Bisim T1 T2 R)
+    (src : List Nat) (st : LexSt) : scan T1 src st = scan T2 src st := by
+  by_cases hlt : st.pos < src.length
+  · have h0 : LRel R (loop0 st) (loop0 st) := ⟨rfl, Or.inr ⟨by unfold loop0; dsimp only; decide, by unfold loop0; dsimp only; decide, h.start⟩⟩
+    have hr := (loop_rel h src _ _ h0).1
+    rw [scan_lt T1 src st hlt, scan_lt T2 src st hlt]
+    dsimp only
+    generalize loop T1 src (loop0 st) = A at hr
+    generalize loop T2 src (loop0 st) = B at hr
+    obtain ⟨pos, line, col, start, sl, sc, e, typ, s1⟩ := A
+    obtain ⟨pos2, line2, col2, start2, sl2, sc2, e2, typ2, s2⟩ := B
+    simp only [Loop.mk.injEq, and_true] at hr
+    obtain ⟨rfl, rfl, rfl, rfl, rfl, rfl, rfl, rfl⟩ := hr
+    rfl
+  · rw [scan_eof T1 src st (by omega), scan_eof T2 src st (by omega)]
+
+theorem bisim_scanN_eq {T1 T2 : LexTables} {R : Nat → Nat → Prop} (h : Bisim T1 T2 R)
+    (src : List Nat) (k : Nat) (st : LexSt) : scanN T1 src k st = scanN T2 src k st := by
+  induction k generalizing st with
+  | zero => rfl
+  | succ k ih => simp only [scanN, bisim_scan_eq h src st, ih]
+
 end Gocc
